@@ -85,7 +85,29 @@ pub fn mutate(gs: &mut GenStream, ch: &mut dyn Chooser, class: u64, fi: usize) -
             m("reserved-bit-after-depth", false)
         }
         7 => {
-            let lead = match ch.below(3) {
+            let pick = ch.below(6);
+            if pick >= 3 {
+                // well-formed lead byte of an n-byte form (n = 2..=7), one continuation byte not of the
+                // form 10xxxxxx: 11xxxxxx (two out of three), 0xxxxxxx otherwise
+                let n = 2 + ch.below(6) as usize;
+                let lead: u8 = match n {
+                    2 => 0xC0 | (2 + ch.below(30)) as u8,
+                    3 => 0xE0 | ch.below(16) as u8,
+                    4 => 0xF0 | ch.below(8) as u8,
+                    5 => 0xF8 | ch.below(4) as u8,
+                    6 => 0xFC | ch.below(2) as u8,
+                    _ => 0xFE,
+                };
+                let bad = ch.below(n as u64 - 1) as usize;
+                let mut raw = vec![lead];
+                for i in 0..n - 1 {
+                    let payload = ch.below(0x40) as u8;
+                    raw.push(if i == bad { if pick < 5 { 0xC0 | payload } else { payload } } else { 0x80 | payload });
+                }
+                ir.number_raw = Some(raw);
+                return Some(Mutant { class: "malformed-coded-number:bad-continuation", must_reject: true, frame: fi });
+            }
+            let lead = match pick {
                 0 => 0x80 + ch.below(0x40) as u8,
                 1 => 0xFF,
                 _ => 0xFE,
